@@ -57,7 +57,23 @@ def genN : Handler := fun j => do
   | .ok r => pure (Json.mkObj [("ok", jStrss (sortStrLists r))])
   | .error e => pure (jErr e)
 
-def handlers : List (String × Handler) := [("C18.i", genI), ("C18.n", genN)]
+/-- `C18.im`: the model only (no brute force over the 2^m attribute subsets) — the oracle for tables with 64+
+    attributes.  `Fca.C18.min_gens_exact` proves the model's list to be exactly the set of minimum generators,
+    each once, so the model is a proved-equivalent fast oracle.
+    → `{"model":{"ok":[[..],..]}|{"err":..}, "nodup":bool}` -/
+def genIM : Handler := fun j => do
+  let be ← getBackend j
+  let t ← getTable j
+  let intent ← getNatList j "intent"
+  let bg ← getOptNatList j "bg"
+  let bo ← getOptNatList j "bo"
+  let K : Ctx := ⟨be, t, [], []⟩
+  let (model, nodup) := match K.getMinimalGeneratorsI intent bg bo with
+    | .ok r => (Json.mkObj [("ok", jNatss (sortLists r))], r.eraseDups.length == r.length)
+    | .error e => (jErr e, true)
+  pure (Json.mkObj [("model", model), ("nodup", Json.bool nodup)])
+
+def handlers : List (String × Handler) := [("C18.i", genI), ("C18.n", genN), ("C18.im", genIM)]
 
 end Fca.Drv.C18
 
@@ -111,7 +127,7 @@ def colOf (v : Json) : Except String Col := do
     | _ => throw "cell must be [lo, hi]"
 
 /-- `{"op":"C18.mv","cols":[[[lo,hi],..],..],"n":n,"intent":[null|[lo,hi],..],"bg":[[ps,null|[lo,hi]],..],
-     "bo":null|[..],"fuel":k,"gens":[[[ps,descr],..],..]}`
+     "bo":null|[..],"psit":null|[..] (optional),"fuel":k,"gens":[[[ps,descr],..],..]}`
     → `{"model":{"ok":[gens sorted]}|{"err":..}, "model_check":bool, "check":[bool,..]}`;
     `check[i]` = the i-th generator of `gens` (the implementation's output) has the same extension as the
     intent inside the base objects. -/
@@ -121,10 +137,11 @@ def genMV : Handler := fun j => do
   let intent ← (← arr (← j.getObjVal? "intent")).mapM descrOf
   let bg ← pairsOf genOf (← j.getObjVal? "bg")
   let bo ← getOptNatList j "bo"
+  let psit ← getOptNatList j "psit"
   let fuel ← getNat j "fuel"
   let gens ← (← arr (← j.getObjVal? "gens")).mapM (pairsOf descrOf)
   let bol := bo.getD (List.range n)
-  let (model, mcheck) := match MGMV.getMinimalGenerators cols n intent bg bo fuel with
+  let (model, mcheck) := match MGMV.getMinimalGeneratorsPs cols n intent bg bo psit fuel with
     | .ok r =>
       let js := (r.map fun d => (jDescrD d).compress).toArray.qsort (· < ·)
       (Json.mkObj [("ok", Json.arr (js.map Json.str))], r.all (sameExtension cols intent bol))
